@@ -1016,7 +1016,7 @@ SPECS["C03"] = _client_only(
     "abandonments.",
     _CLIENT_NOTE + "Without hook H3 a swap of close() and cancel() in ResponseGuard::drop would be invisible at poll "
     "granularity; with it the split op GuardClose/GuardCancel has an implementation counterpart.",
-    sweeps=[["--len", "5"]])
+    sweeps=[["--len", "5"], ["--family", "volume"]])
 
 
 SPECS["C02"] = {
@@ -1069,7 +1069,8 @@ SPECS["C11"] = {
     "coq_targets": ["Properties/C11.vo", "Checks/C11client.vo"],
     "parts": [client_part("c11", "C11client", has("in-flight>=1"),
                           "the real dispatch tracked at least one request (so gauges are informative); runs are 40..120 ops "
-                          "long so that table slots are reused")],
+                          "long so that table slots are reused; thorough adds the volume family (1000+ abandoned calls "
+                          "piling stale ids into the cancellation queue before a genuine cancellation)")],
     "trusted_base": COMMON_TB + CLIENT_TB,
     "level_text": "Client half proved: C11_client_bound (every transport, every op list, no hypothesis: tracked requests <= "
                   "max_in_flight and pending timers = tracked requests after every dispatch poll) and C11_client_monitor "
@@ -1298,3 +1299,22 @@ for _pid in ("C16", "C09"):
             "translator: tools/panic_sites.py lists every unwrap/expect/panic!/unreachable!/assert!/indexing/"
             "modulo/DelayQueue insert/unchecked time arithmetic in the non-test code of the anchored files and "
             "compares it with the pinned, justified map tools/panic_sites.json on every run"]
+
+# Translator side condition (C03, C11, C02, C13): the queue inventory of the anchored sources must equal the pinned
+# map tools/queue_inventory.json (every channel / queue construction with its capacity expression, every lossy op).
+def queue_inventory():
+    import subprocess, sys
+    from . import vcheck as V
+    p = subprocess.run([sys.executable, os.path.join(V.ROOT, "tools", "queue_inventory.py"), "--repo", V.REPO],
+                       stdout=subprocess.PIPE, stderr=subprocess.STDOUT, text=True)
+    return p.returncode == 0, p.stdout[-2500:]
+
+
+for _pid in ("C03", "C11", "C02", "C13"):
+    SPECS[_pid].setdefault("side_conditions", []).append(("queue_inventory", queue_inventory))
+    SPECS[_pid]["trusted_base"] = SPECS[_pid]["trusted_base"] + [
+        "translator: tools/queue_inventory.py lists every channel / queue / semaphore construction (with its capacity "
+        "expression) and every lossy queue operation (try_send, try_recv, ...) in the non-test code of the anchored "
+        "files and compares it with the pinned map tools/queue_inventory.json, which says how the models represent "
+        "each (bounded by which configuration field, or unbounded), on every run"]
+SPECS["C11"]["parts"][0]["sweeps"] = [["--family", "volume"]]
